@@ -2,7 +2,9 @@
 (***************************************************************************)
 (* Validation of the per-rank collective logs recorded from simulated-rank  *)
 (* runs of the real distributors (C06 / C07 / C08).  A case is              *)
-(*   [W, GS, owner, seg, masks : Seq(Seq(block)), logs : Seq(per-rank log)] *)
+(*   [W, GS, pgs : Seq([owner, seg]) one entry per parameter group,         *)
+(*    masks : Seq over steps of Seq over parameter groups of Seq(block),    *)
+(*    logs : Seq(per-rank log)]                                             *)
 (*   per-rank log = [created : Seq(Seq(rank)), gathers : Seq([grp,inb,outb])]*)
 (* The verdict is the smallest explanation:                                 *)
 (*   "ok"                    every rank issued the sequences the repaired    *)
@@ -14,13 +16,13 @@
 EXTENDS DistCore, Json, IOUtils, TLC
 
 ToSet(s) == {s[i] : i \in 1..Len(s)}
-Cfg(x, dev) == [W |-> x.W, GS |-> x.GS, owner |-> x.owner, seg |-> x.seg, dev |-> dev]
-Masks(x) == [k \in 1..Len(x.masks) |-> ToSet(x.masks[k])]
+Cfgs(x, dev) == [g \in 1..Len(x.pgs) |-> [W |-> x.W, GS |-> x.GS, owner |-> x.pgs[g].owner, seg |-> x.pgs[g].seg, dev |-> dev]]
+Masks(x) == [k \in 1..Len(x.masks) |-> [g \in 1..Len(x.pgs) |-> ToSet(x.masks[k][g])]]
 
 CreationsAgree(x) == \A r \in 1..x.W : x.logs[r].created = x.logs[1].created
-CreationsMatch(x, dev) == \A r \in 1..x.W : x.logs[r].created = CreationsC(Cfg(x, dev), r - 1)
-GathersMatch(x, dev) == \A r \in 1..x.W : x.logs[r].gathers = GathersC(Cfg(x, dev), r - 1, Masks(x), 1)
-Starves(x) == \E k \in 1..Len(x.masks) : \E r \in 0..(x.W - 1) : StarvedC(Cfg(x, {}), r, ToSet(x.masks[k]))
+CreationsMatch(x, dev) == \A r \in 1..x.W : x.logs[r].created = CreationsMultiC(Cfgs(x, dev), r - 1, 1, {})
+GathersMatch(x, dev) == \A r \in 1..x.W : x.logs[r].gathers = GathersMultiC(Cfgs(x, dev), r - 1, Masks(x), 1)
+Starves(x) == \E k \in 1..Len(x.masks) : \E g \in 1..Len(x.pgs) : \E r \in 0..(x.W - 1) : StarvedC(Cfgs(x, {})[g], r, ToSet(x.masks[k][g]))
 
 Verdict(x) ==
   LET cre == IF CreationsAgree(x) THEN "ok"
@@ -28,7 +30,7 @@ Verdict(x) ==
       gat == IF GathersMatch(x, {}) THEN "ok"
              ELSE IF Starves(x) /\ GathersMatch(x, {"SkipOnLocalEmpty"}) THEN "SkipOnLocalEmpty" ELSE "unexplained"
   IN [creation |-> cre, gathers |-> gat, starves |-> Starves(x),
-      expected_gathers |-> [r \in 1..x.W |-> Len(GathersC(Cfg(x, {}), r - 1, Masks(x), 1))]]
+      expected_gathers |-> [r \in 1..x.W |-> Len(GathersMultiC(Cfgs(x, {}), r - 1, Masks(x), 1))]]
 
 Cases == JsonDeserialize(IOEnv.CASES)
 ASSUME JsonSerialize(IOEnv.OUT, [i \in 1..Len(Cases) |-> Verdict(Cases[i])])
